@@ -185,20 +185,43 @@ Qed.
 Lemma assoc_rmp k mpx : assoc_get k (map (fun '(l, n) => (n, l)) mpx) = rmp_get k mpx.
 Proof. induction mpx as [|[a b] mpx IH]; simpl; [reflexivity|]. rewrite IH. reflexivity. Qed.
 
-Lemma rmp_seq : forall (mpx : list (label * nat)) a, map snd mpx = seq a (length mpx) ->
-  map (fun k => match rmp_get k mpx with Some l => l | None => k end) (seq a (length mpx)) = map fst mpx.
+Lemma rmp_get_some n (mpx : list (label * nat)) : In n (map snd mpx) -> exists l, rmp_get n mpx = Some l.
 Proof.
-  induction mpx as [|[l n] mpx IH]; intros a H; [reflexivity|]. simpl in H. injection H as -> H. simpl. rewrite Nat.eqb_refl. f_equal.
-  rewrite <- (IH (S a) H). apply map_ext_in. intros k Hk. apply in_seq in Hk.
-  destruct (Nat.eqb_spec k a) as [->|_]; [lia| reflexivity].
+  induction mpx as [|[a b] mpx IH]; simpl; [intros []|]. intros [<-|H]; [rewrite Nat.eqb_refl; eauto|].
+  destruct (Nat.eqb_spec n b); [eauto| apply IH, H].
+Qed.
+Lemma mp_get_some l (mpx : list (label * nat)) : In l (map fst mpx) -> exists n, mp_get l mpx = Some n.
+Proof.
+  induction mpx as [|[a b] mpx IH]; simpl; [intros []|]. intros [<-|H]; [rewrite Nat.eqb_refl; eauto|].
+  destruct (Nat.eqb_spec l a); [eauto| apply IH, H].
+Qed.
+Lemma NoDup_map_inj_in {A B} (f : A -> B) l : NoDup l -> (forall a b, In a l -> In b l -> f a = f b -> a = b) -> NoDup (map f l).
+Proof.
+  induction l as [|x l IH]; intros Hn Hf; [constructor|]. inversion Hn as [|? ? Hx Hn']; subst. cbn [map]. constructor.
+  - intros Hin. apply in_map_iff in Hin. destruct Hin as (y & Ey & Hy). apply Hx.
+    rewrite (Hf x y (or_introl eq_refl) (or_intror Hy) (eq_sym Ey)). exact Hy.
+  - apply IH; [exact Hn'|]. intros a b Ha Hb. apply Hf; right; assumption.
 Qed.
 
+(* the labels of the positions 0..n-1 through the reverse mapping: each mapped label once (whatever numbering the mapping uses) *)
 Lemma labs_labelled m t : Inv m -> is_labelled (kd m) = true ->
-  labs {| p_model := t; p_N := num_vars m; p_rmp := rmp_of m |} = map fst (mp m).
+  NoDup (labs {| p_model := t; p_N := num_vars m; p_rmp := rmp_of m |})
+  /\ forall x, In x (labs {| p_model := t; p_N := num_vars m; p_rmp := rmp_of m |}) <-> In x (map fst (mp m)).
 Proof.
-  intros HI Hl. destruct (Inv_counts m HI Hl) as [Hc _]. destruct HI as [_ L]. destruct (L Hl) as (_ & _ & S2 & _).
-  unfold labs, lab_of. cbn [p_N p_rmp]. rewrite <- Hc, <- (rmp_seq (mp m) 0%nat S2). apply map_ext. intros k.
-  unfold rmp_of. rewrite assoc_rmp. reflexivity.
+  intros HI Hl. set (p := {| p_model := t; p_N := num_vars m; p_rmp := rmp_of m |}).
+  assert (Hlab : forall k, (k < num_vars m)%nat -> exists l, rmp_get k (mp m) = Some l /\ lab_of p k = l).
+  { intros k Hk. apply (Inv_range m HI Hl) in Hk. destruct (rmp_get_some k (mp m) Hk) as (l & E). exists l. split; [exact E|].
+    unfold lab_of. cbn [p_rmp p]. unfold rmp_of. rewrite assoc_rmp, E. reflexivity. }
+  split.
+  - unfold labs. cbn [p_N p]. apply NoDup_map_inj_in; [apply seq_NoDup|]. intros a b Ha Hb E.
+    apply in_seq in Ha. apply in_seq in Hb. destruct (Hlab a ltac:(lia)) as (la & Ea & La). destruct (Hlab b ltac:(lia)) as (lb & Eb & Lb).
+    rewrite La, Lb in E. rewrite <- E in Eb. apply (Inv_bijection m HI Hl) in Ea. apply (Inv_bijection m HI Hl) in Eb. congruence.
+  - intros x. unfold labs. cbn [p_N p]. rewrite in_map_iff. split.
+    + intros (k & Ek & Hk). apply in_seq in Hk. destruct (Hlab k ltac:(lia)) as (l & E & Lk). rewrite Lk in Ek. rewrite Ek in E.
+      apply (rmp_get_In _ _ _ E).
+    + intros Hx. destruct (mp_get_some x (mp m) Hx) as (n & En). pose proof (proj2 (mp_get_In _ _ _ En)) as Hn.
+      apply (Inv_range m HI Hl) in Hn. destruct (Hlab n Hn) as (l & E & Ln). apply (Inv_bijection m HI Hl) in En.
+      assert (E2 : l = x) by congruence. rewrite E2 in Ln. exists n. split; [exact Ln| apply in_seq; lia].
 Qed.
 
 (* a labelled model enumerated through its mapping into a spin Matrix kind *)
@@ -208,9 +231,7 @@ Lemma prep_labelled_ok m e K : Inv m -> is_labelled (kd m) = true -> is_spin K =
   /\ LP (fun i => (i < num_vars m)%nat) (tm e) /\ wf K (tm e).
 Proof.
   intros HI Hl Hsp HK H. set (p := {| p_model := tm e; p_N := num_vars m; p_rmp := rmp_of m |}).
-  assert (HL : labs p = map fst (mp m)) by (apply labs_labelled; assumption).
-  assert (Hinj : NoDup (labs p)).
-  { rewrite HL. destruct HI as [_ L]. destruct (L Hl) as (_ & N1 & _). exact N1. }
+  destruct (labs_labelled m (tm e) HI Hl) as [Hinj HL]. fold p in Hinj, HL.
   pose proof H as H'. unfold to_matrix in H'. inv_bind H'.
   pose proof (m_create_wf _ _ _ H') as Hw. destruct (m_create_eval (fun _ => 1) _ _ _ H') as [_ Kd].
   { unfold good_env. destruct K; simpl in Hsp; try discriminate; intros i; left; reflexivity. }
@@ -222,7 +243,7 @@ Proof.
   - exact (proj1 Hw).
   - apply (wf_nodup_keys K); assumption.
   - exact Hinj.
-  - intros x. rewrite HL. reflexivity.
+  - intros x. symmetry. apply HL.
   - intros s Ls Ps. cbn [p_model p p_N] in *.
     set (e1 := fun i : nat => if (i <? num_vars m)%nat then zq (nth i s 0%Z) else 1).
     assert (Hs1 : spin_env e1).
